@@ -1,2 +1,3 @@
 import DDProps.Tables
 import DDProps.C02
+import DDProps.C15
